@@ -3,34 +3,64 @@
         (RMCP LAN, Linux ipmb-dev, Aardvark).
 
   Vocabulary: `Spec.Attribution` (isReplyTo, Carries, replyData, Unrelated, BareAck) is the
-  specification; `Loops.rmcpRequest` / `Loops.i2cRequest` are the models of
-  `Rmcp._send_and_receive` and `IpmbDev/Aardvark._send_and_receive`, tied to the source by the
-  correspondence run and by Gen/Loops04.lean.  `Cfg.requeue = true` is the loop AS SHIPPED
-  (an unmatched frame is put back into `_q`), `false` the INTENDED loop (fixes/C04-1.diff).
+  specification; `Loops.rmcpRequest` / `Loops.i2cRequest` / `Loops.i2cProbe` are the models of
+  `Rmcp._send_and_receive`, `IpmbDev/Aardvark._send_and_receive` and `.is_ipmc_accessible`, tied to the
+  source by the correspondence run and by Gen/Loops04.lean.  The state of the SOURCE is a parameter of the
+  RMCP model (`Cfg.requeue / cmdOnly / drain`, see Model/RmcpLoop.lean); `Cfg.Repaired` is the source with
+  fixes/C04-1, C09-1, C04-3 (and C04-2, which the sequential model cannot tell apart — C14), `inc = true` of
+  `i2cProbe` the source with fixes/C04-4.  Property theorems are about the repaired source, the
+  `…_counterexample` theorems about the source as it was shipped.
 
   Theorems (every one an obligation, all for every event list / budget / quirk setting / history):
   * `gen_loop_shape`                 — what the proofs use of the generated constants
   * `source_shape_rmcp`, `source_shape_ipmbdev`, `source_shape_aardvark`
-                                     — the five Python functions, re-read statement by statement from the
+                                     — the eight Python functions, re-read statement by statement from the
                                        working tree (Gen/Loops04.lean), ARE the functions the step functions
                                        of the models were written from (`Loops.Shape.*`, annotated there)
   * `source_facts`                   — the same in words, read off the generated functions: the sequence
-                                       number is advanced by the first statement and nowhere else, `_q` is
-                                       read once and never written, one send per round
+                                       number is advanced once by every request function (the probes included),
+                                       in RMCP as the first statement INSIDE the lock block, which is the first
+                                       statement of the function; `_q` is read once and never written; one send
+                                       per round; the socket is drained once, before the loops
   * `attribution_sound_rmcp`         — ok d ⇒ d is the data of an intact reply to THIS request carried by a
-                                       frame of `_q` or a received datagram (both variants, both quirks)
-  * `queue_provenance_rmcp`          — whatever sits in `_q` after any history was carried by a received frame
-  * `attribution_sound_session`      — the same after any history of requests on the interface object
-  * `attribution_sound_i2c`          — ipmb-dev / Aardvark
-  * `seq_distinct_rmcp`, `seq_distinct_i2c` — new sequence number ≠ previous one, at least one request is
-                                       written and every copy carries that number in byte 4
-  * `finds_match_after_noise_asShipped_counterexample`, `no_poisoning_asShipped_counterexample`
-                                     — the shipped loop violates both progress clauses (concrete witness)
-  * `finds_match_after_noise`        — intended loop: ≤ max_retries unrelated frames (bare acks free) then the
-                                       reply ⇒ that reply's data
-  * `finds_match_after_timeouts`     — … also after ≤ max_retries time-outs, each round within the budget
-  * `queue_stays_empty`, `no_poisoning` — intended loop: nothing survives a request, so a later request
-                                       finds its reply whatever happened before
+                                       frame of `_q` or a datagram the request read (any variant, both quirks);
+                                       with the repaired recognition "carried" means: through INTACT Send
+                                       Message responses only
+  * `attribution_sound_repaired`     — repaired source: … and that datagram ARRIVED DURING THIS REQUEST: nothing
+                                       an earlier request left in the socket is ever returned
+  * `attribution_strict_asShipped_counterexample`
+                                     — as shipped, data is returned out of a Send Message response whose
+                                       checksum fails
+  * `cc_error_only_from_own_send_message`, `late_ack_asShipped_counterexample`
+                                     — repaired: a CompletionCodeError leaves the transport only for a bridged
+                                       request and only on an intact response to ITS Send Message (same sequence
+                                       number); as shipped the error code of the late acknowledgement of an
+                                       EARLIER request is raised for an unbridged one
+  * `queue_provenance_rmcp`, `attribution_sound_session`
+                                     — the same after any history of requests on the interface object (what is
+                                       in `_q` or in the socket was delivered at some point of the history)
+  * `attribution_sound_i2c`, `attribution_sound_probe` — ipmb-dev / Aardvark, `is_ipmc_accessible` included
+  * `seq_distinct_rmcp`, `seq_distinct_i2c`, `seq_distinct_probe`
+                                     — new sequence number ≠ previous one, at least one request is written and
+                                       every copy carries that number in byte 4
+  * `probe_reuses_seq_asShipped_counterexample`
+                                     — as shipped the probe goes out with the number of the request before it
+  * `finds_match_after_noise_requeue_counterexample`, `no_poisoning_requeue_counterexample`
+                                     — the loop before fixes/C04-1.diff violated both progress clauses
+  * `finds_match_after_timeouts`, `finds_match_after_noise`
+                                     — repaired loop, ANY state of `_q`-empty interface, ANYTHING left in the
+                                       socket: ≤ max_retries unrelated frames (bare acks of this transaction
+                                       free) per round, ≤ max_retries time-outs, then the reply ⇒ that reply's
+                                       data — every request, command 34h included (an un-bridged request is
+                                       never taken for bridging traffic)
+  * `no_poisoning_asShipped_counterexample`
+                                     — as shipped (no drain), max_retries = 0: ONE surplus datagram during
+                                       request 1 and request 2 fails although its reply arrives (and leaves that
+                                       reply for request 3 …)
+  * `socket_leftover_is_ignored`, `queue_stays_empty`, `no_poisoning`
+                                     — repaired: what earlier requests left in the socket has no influence at
+                                       all, `_q` stays empty: after ANY history a request whose reply arrives is
+                                       answered, for every max_retries including 0
   * `finds_match_after_noise_i2c`    — ipmb-dev / Aardvark: unrelated frames within the timeout, failed
                                        attempts within the retry count, then the reply ⇒ its data; no state
                                        but the sequence number exists there (`i2cRequest` takes nothing else)
@@ -43,14 +73,21 @@ open PyIpmi PyIpmi.Loops PyIpmi.Spec.Attribution
 /-- The identity of request `req` when it carries sequence number `seq`. -/
 def ridOf (req : Req) (seq : Nat) : ReqId := ⟨req.netfn, req.lun, req.cmd, seq⟩
 
+/-- `some seq` when request `req` goes out inside a Send Message (routing with more than one entry). -/
+def bridgedOf (req : Req) (seq : Nat) : Option Nat := if 1 < req.routing.length then some seq else none
+
+theorem bridgeOf_eq (req : Req) (seq : Nat) : bridgeOf req seq = bridgeOfSeq (bridgedOf req seq) := by
+  unfold bridgeOf bridgedOf bridgeOfSeq
+  split <;> rfl
+
 /-- Datagram payloads delivered during a history of requests. -/
 def sessionFrames (hist : List (Req × List RxEvent)) : List Frame :=
   hist.flatMap fun p => framesOf p.2
 
 /-- What the proofs below use of the constants regenerated from the source on every run:
 sequence rule `(s + 1) % 64` on all three transports, `<=` in both RMCP loops, `<` in the
-ipmb-dev / Aardvark loop with at least one attempt and a positive timeout, bridged test on
-byte 5 against the Send Message command of the specification, returned slice `[6:-1]`. -/
+ipmb-dev / Aardvark loop with at least one attempt and a positive timeout, the Send Message ids of
+the specification, returned slice `[6:-1]`. -/
 theorem gen_loop_shape :
     Gen.Loops04.notExtracted = 0 ∧
     Gen.Loops04.rmcpSeqInc = 1 ∧ Gen.Loops04.rmcpSeqMod = 64 ∧
@@ -60,107 +97,263 @@ theorem gen_loop_shape :
     Gen.Loops04.ipmbdevAttemptsExtra = 0 ∧ Gen.Loops04.aardvarkAttemptsExtra = 0 ∧
     1 ≤ Gen.Loops04.ipmbdevMaxRetries ∧ 1 ≤ Gen.Loops04.aardvarkMaxRetries ∧
     0 < Gen.Loops04.ipmbdevTimeoutTicks ∧ 0 < Gen.Loops04.aardvarkTimeoutTicks ∧
-    Gen.Loops04.rmcpBridgeIdx = 5 ∧ Gen.Loops04.cmdSendMessage = cmdSendMessage ∧
+    Gen.Loops04.cmdSendMessage = cmdSendMessage ∧ Gen.Loops04.netfnApp = netfnApp ∧
     Gen.Loops04.rmcpDataLo = 6 ∧ Gen.Loops04.rmcpDataHi = 1 := by decide
 
-/-! ## The control flow of the three loops, as the source states it -/
+/-! ## The control flow of the exchanges, as the source states it -/
 
-/-- `Rmcp._send_and_receive` of the working tree is, statement by statement, the function that
-`Loops.rmcpRequest` / `outer` / `inner` / `nextQ` / `nextSock` / `classify` mirror (intended
-variant: nothing is put back into `_q`): the sequence number is advanced before the header
-is built and before the retry loop, on every path; retry loop ⊃ send ⊃ receive loop; a frame
-that fails the filter is counted and dropped, a bare acknowledgement is skipped without
-counting, `socket.timeout` costs one retry, an exhausted budget raises RetryError; what is
-returned is a slice of a frame that passed `rx_filter`. -/
-theorem source_shape_rmcp : Gen.Loops04.rmcpSendAndReceive = Loops.Shape.rmcp := by decide
+/-- `Rmcp._send_and_receive` and `Rmcp._drain_socket` of the working tree are, statement by statement,
+the functions that `Loops.rmcpRequest` / `pending` / `outer` / `inner` / `nextQ` / `nextSock` /
+`classify` mirror (`Cfg.Repaired`): ONE lock block around sequence number, header, frame, drain and the
+loops; the sequence number is advanced before the header is built, on every path; what is still in the
+socket is discarded before the first transmission; retry loop ⊃ send ⊃ receive loop; only a frame that
+passes the filter of the outstanding Send Message request is unwrapped (verified); a frame that fails
+the reply filter is counted and dropped, a bare acknowledgement is skipped without counting,
+`socket.timeout` costs one retry, an exhausted budget raises RetryError; what is returned is a slice of a
+frame that passed `rx_filter`. -/
+theorem source_shape_rmcp :
+    Gen.Loops04.rmcpSendAndReceive = Loops.Shape.rmcp ∧
+    Gen.Loops04.rmcpDrainSocket = Loops.Shape.rmcpDrainSocket := by decide
 
-/-- `IpmbDev._send_and_receive` and `IpmbDev._receive_raw` of the working tree are the functions
-`Loops.i2cRequest` / `i2cAttempts` / `recvRaw` (with `lenByte = true`) mirror. -/
+/-- `IpmbDev._send_and_receive`, `IpmbDev._receive_raw` and `IpmbDev.is_ipmc_accessible` of the working
+tree are the functions `Loops.i2cRequest` / `i2cAttempts` / `recvRaw` (with `lenByte = true`) /
+`i2cProbe` (with `inc = true`) mirror. -/
 theorem source_shape_ipmbdev :
     Gen.Loops04.ipmbdevSendAndReceive = Loops.Shape.ipmbdevSendAndReceive ∧
-    Gen.Loops04.ipmbdevReceiveRaw = Loops.Shape.ipmbdevReceiveRaw := by decide
+    Gen.Loops04.ipmbdevReceiveRaw = Loops.Shape.ipmbdevReceiveRaw ∧
+    Gen.Loops04.ipmbdevIsIpmcAccessible = Loops.Shape.isIpmcAccessible := by decide
 
-/-- `Aardvark._send_and_receive` and `Aardvark._receive_raw` likewise (`lenByte = false`). -/
+/-- `Aardvark._send_and_receive`, `._receive_raw`, `.is_ipmc_accessible` likewise (`lenByte = false`). -/
 theorem source_shape_aardvark :
     Gen.Loops04.aardvarkSendAndReceive = Loops.Shape.aardvarkSendAndReceive ∧
-    Gen.Loops04.aardvarkReceiveRaw = Loops.Shape.aardvarkReceiveRaw := by decide
+    Gen.Loops04.aardvarkReceiveRaw = Loops.Shape.aardvarkReceiveRaw ∧
+    Gen.Loops04.aardvarkIsIpmcAccessible = Loops.Shape.isIpmcAccessible := by decide
 
 open PyIpmi.LoopAst in
-/-- Read off the GENERATED functions (not the expected ones): on each transport the first
-statement advances the sequence number and no other statement does; the RMCP loop takes
-from `_q` in one place, never puts anything into it, sends in one place and receives in
-one place; ipmb-dev / Aardvark send and receive in one place each. -/
+/-- the suite inside `with …:` when that is the first statement of a function -/
+def lockBody (f : Fun) : B :=
+  match f.body.head? with
+  | some (.with_ _ b) => b
+  | _ => .nil
+
+open PyIpmi.LoopAst in
+/-- Read off the GENERATED functions (not the expected ones): every function that puts a request on
+the wire — the two `is_ipmc_accessible` included — advances the sequence number exactly once; on
+ipmb-dev / Aardvark that is the first statement, in RMCP the first statement INSIDE the lock block, which
+is the first statement of the function (nothing that touches the counter happens outside the lock); the
+RMCP loop takes from `_q` in one place, never puts anything into it, drains the socket once, sends in one
+place and receives in one place; `_drain_socket` reads the socket in one place; ipmb-dev / Aardvark send
+and receive in one place each. -/
 theorem source_facts :
-    (∀ f ∈ [Gen.Loops04.rmcpSendAndReceive, Gen.Loops04.ipmbdevSendAndReceive, Gen.Loops04.aardvarkSendAndReceive],
-      f.body.head? = some (.expr (.call (.attr .self_ .u_inc_sequence_number) .nil)) ∧
+    (∀ f ∈ [Gen.Loops04.rmcpSendAndReceive, Gen.Loops04.ipmbdevSendAndReceive, Gen.Loops04.aardvarkSendAndReceive,
+        Gen.Loops04.ipmbdevIsIpmcAccessible, Gen.Loops04.aardvarkIsIpmcAccessible],
       f.body.calls .u_inc_sequence_number = 1) ∧
+    (∀ f ∈ [Gen.Loops04.ipmbdevSendAndReceive, Gen.Loops04.aardvarkSendAndReceive,
+        Gen.Loops04.ipmbdevIsIpmcAccessible, Gen.Loops04.aardvarkIsIpmcAccessible],
+      f.body.head? = some (.expr (.call (.attr .self_ .u_inc_sequence_number) .nil))) ∧
+    (lockBody Gen.Loops04.rmcpSendAndReceive).head? = some (.expr (.call (.attr .self_ .u_inc_sequence_number) .nil)) ∧
+    (lockBody Gen.Loops04.rmcpSendAndReceive).calls .u_inc_sequence_number = 1 ∧
+    (lockBody Gen.Loops04.rmcpSendAndReceive).calls .u_drain_socket = 1 ∧
+    Gen.Loops04.rmcpSendAndReceive.body.calls .u_drain_socket = 1 ∧
     Gen.Loops04.rmcpSendAndReceive.body.calls .get = 1 ∧
     Gen.Loops04.rmcpSendAndReceive.body.calls .put = 0 ∧
     Gen.Loops04.rmcpSendAndReceive.body.calls .u_send_ipmi_msg = 1 ∧
     Gen.Loops04.rmcpSendAndReceive.body.calls .u_receive_ipmi_msg = 1 ∧
-    (∀ f ∈ [Gen.Loops04.ipmbdevSendAndReceive, Gen.Loops04.aardvarkSendAndReceive],
+    Gen.Loops04.rmcpDrainSocket.body.calls .recvfrom = 1 ∧
+    (∀ f ∈ [Gen.Loops04.ipmbdevSendAndReceive, Gen.Loops04.aardvarkSendAndReceive,
+        Gen.Loops04.ipmbdevIsIpmcAccessible, Gen.Loops04.aardvarkIsIpmcAccessible],
       f.body.calls .u_send_raw = 1 ∧ f.body.calls .u_receive_raw = 1) := by decide
 
 /-! ## Attribution -/
 
-/-- RMCP, one request, any state of the interface, any events, any budget, both quirks, both
-variants of the loop: data is returned only if it is the data of an intact reply to this
-request (netFn + 1, command, responder LUN, sequence number unless `rmcp_ignore_rq_seq`, both
-checksums) that was carried by a frame in `_q` or by a datagram delivered during the request. -/
+theorem inv_sources (st : Bool) (q : List Frame) (evs : List RxEvent) : Inv st (q ++ framesOf evs) q evs :=
+  ⟨fun _ hx => Sound.of_mem (List.mem_append_left _ hx), fun _ hx => List.mem_append_right _ hx⟩
+
+/-- RMCP, one request, any state of the interface, any events, any budget, both quirks, every
+variant of the source: data is returned only if it is the data of an intact reply to this request
+(netFn + 1, command, responder LUN, sequence number unless `rmcp_ignore_rq_seq`, both checksums) that
+was carried by a frame in `_q` or by a datagram the request could read (`pending`: with the drain what
+arrives during the request; without it also what was left in the socket) — with the repaired
+recognition (`cmdOnly = false`) carried through INTACT Send Message responses only. -/
 theorem attribution_sound_rmcp (cfg : Cfg) (st : IfState) (req : Req) (evs : List RxEvent) (d : Frame)
     (hn : req.netfn % 2 = 0) (h : (rmcpRequest cfg st req evs).out = .ok d) :
-    ∃ dg ∈ st.queue ++ framesOf evs, ∃ f, Carries dg f ∧
+    ∃ dg ∈ st.queue ++ framesOf (pending cfg st evs), ∃ f, Carries (!cfg.cmdOnly) dg f ∧
       isReplyTo (!cfg.ignoreRqSeq) (ridOf req ((st.nextSeq + 1) % 64)) f ∧ d = replyData f := by
-  have hi : Inv (st.queue ++ framesOf evs) st.queue evs :=
-    ⟨fun x hx => Sound.of_mem (List.mem_append_left _ hx), fun x hx => List.mem_append_right _ hx⟩
-  have := (outer_ok cfg (mkHdr cfg.slaveAddr req (incSeq st.nextSeq)) hn _ (outerBudget cfg) st.queue evs 0 hi).2 d h
+  have := (outer_ok cfg (bridgeOf req (incSeq st.nextSeq)) (mkHdr cfg.slaveAddr req (incSeq st.nextSeq)) hn _
+    (outerBudget cfg) st.queue (pending cfg st evs) 0 (inv_sources _ _ _)).2 d h
   obtain ⟨g, ⟨dg, hdg, hc⟩, hr, hd⟩ := this
   exact ⟨dg, hdg, g, hc, hr, by rw [hd]; exact pySlice_eq_replyData g⟩
 
-/-- After any history of requests, every frame in `_q` was carried by a frame that was in
-`_q` initially or by a datagram delivered during the history. -/
+/-- Repaired source: the answer was carried, through intact Send Message responses, by a datagram that
+arrived DURING THIS request (or sat in `_q`, which is empty from the first request on —
+`queue_stays_empty`).  Whatever an earlier request left in the socket is never returned. -/
+theorem attribution_sound_repaired (cfg : Cfg) (hc : cfg.Repaired) (st : IfState) (req : Req) (evs : List RxEvent)
+    (d : Frame) (hn : req.netfn % 2 = 0) (h : (rmcpRequest cfg st req evs).out = .ok d) :
+    ∃ dg ∈ st.queue ++ framesOf evs, ∃ f, Carries true dg f ∧
+      isReplyTo (!cfg.ignoreRqSeq) (ridOf req ((st.nextSeq + 1) % 64)) f ∧ d = replyData f := by
+  have := attribution_sound_rmcp cfg st req evs d hn h
+  simpa [pending, hc.2.1, hc.2.2] using this
+
+def wReq : Req := { rsSa := 0x20, netfn := 6, lun := 0, cmd := 1 }
+/-- late reply to the previous request (sequence number 0) -/
+def wStale : Frame := [0x81, 0x1c, 0x63, 0x20, 0x00, 0x01, 0x00, 0xaa, 0xbb, 0x7a]
+/-- the reply to request 1 (sequence number 1) -/
+def wReply1 : Frame := [0x81, 0x1c, 0x63, 0x20, 0x04, 0x01, 0x00, 0xaa, 0xbb, 0x76]
+/-- the reply to request 2 (sequence number 2) -/
+def wReply2 : Frame := [0x81, 0x1c, 0x63, 0x20, 0x08, 0x01, 0x00, 0xcc, 0x0b]
+/-- `wReply1` inside a Send Message response whose payload checksum (last byte, should be A8h) is damaged -/
+def wDamaged : Frame := [0x81, 0x1c, 0x63, 0x20, 0x04, 0x34, 0x00, 0x81, 0x1c, 0x63, 0x20, 0x04, 0x01, 0x00,
+  0xaa, 0xbb, 0x76, 0xa9]
+/-- acknowledgement of the Send Message of an earlier transaction (sequence number 1), completion code 83h -/
+def wLateAck : Frame := [0x81, 0x1c, 0x63, 0x20, 0x04, 0x34, 0x83, 0x25]
+
+/-- As shipped the strict reading fails: `wDamaged` is the only thing received, its second checksum does
+not verify, and the data embedded in it is returned. -/
+theorem attribution_strict_asShipped_counterexample :
+    ¬ ∀ (cfg : Cfg) (st : IfState) (req : Req) (evs : List RxEvent) (d : Frame), cfg.cmdOnly = true →
+      req.netfn % 2 = 0 → (rmcpRequest cfg st req evs).out = .ok d →
+      ∃ dg ∈ st.queue ++ framesOf (pending cfg st evs), ∃ f, Carries true dg f ∧
+        isReplyTo (!cfg.ignoreRqSeq) (ridOf req ((st.nextSeq + 1) % 64)) f ∧ d = replyData f := by
+  intro H
+  obtain ⟨dg, hdg, f, hc, hr, _⟩ := H (Cfg.shipped { maxRetries := 0 }) ⟨0, [], []⟩ wReq [.frame wDamaged]
+    [0x00, 0xaa, 0xbb] rfl (by decide) (by decide)
+  have hdg' : dg = wDamaged := by simpa [pending, Cfg.shipped, framesOf] using hdg
+  subst hdg'
+  have hm := (carries_iff_mem_layers true _ _).1 hc
+  have hl : layers true wDamaged = [wDamaged] := by decide
+  rw [hl] at hm
+  simp only [List.mem_singleton] at hm
+  subst hm
+  revert hr
+  decide
+
+/-- Repaired source: a CompletionCodeError leaves `_send_and_receive` only when the request is bridged
+and only on a datagram that is an intact response to the Send Message request of THIS transaction
+(netFn 07h, command 34h, LUN 0, both checksums, the request's sequence number unless the quirk switched
+the comparison off) — never from a late or foreign acknowledgement, never from a damaged frame, never
+for an un-bridged request. -/
+theorem cc_error_only_from_own_send_message (cfg : Cfg) (hc : cfg.Repaired) (st : IfState) (hq : st.queue = [])
+    (req : Req) (evs : List RxEvent) (c : Nat) (h : (rmcpRequest cfg st req evs).out = .ccError c) :
+    ∃ s, bridgedOf req ((st.nextSeq + 1) % 64) = some s ∧
+      ∃ dg ∈ framesOf evs, 6 ≤ dg.length ∧ isReplyTo (!cfg.ignoreRqSeq) (bridgeId s) dg := by
+  have hx : (outer cfg (bridgeOf req (incSeq st.nextSeq)) (mkHdr cfg.slaveAddr req (incSeq st.nextSeq))
+      (outerBudget cfg) [] evs 0).out = .ccError c := by
+    simpa [rmcpRequest, pending, hc.2.2, hq] using h
+  obtain ⟨bh, hb, f, hf, hflt⟩ := outer_cc cfg hc.2.1 hc.1 _ _ _ _ _ c hx
+  rw [bridgeOf_eq] at hb
+  have hs : incSeq st.nextSeq = (st.nextSeq + 1) % 64 := rfl
+  rw [hs] at hb
+  cases hbr : bridgedOf req ((st.nextSeq + 1) % 64) with
+  | none => rw [hbr] at hb; cases hb
+  | some s =>
+    rw [hbr] at hb
+    simp only [bridgeOfSeq, Option.map_some, Option.some.injEq] at hb
+    subst hb
+    have hl : 6 ≤ f.length := rxFilter_len hflt (by simp [bridgeHdr, Gen.Loops04.cmdSendMessage])
+    exact ⟨s, rfl, f, hf, hl, by
+      have := (rxFilter_iff cfg.checkSeq (bridgeHdr s) f (bridgeHdr_even s) hl).1 hflt
+      simpa [bridgeHdr_rid, Cfg.checkSeq] using this⟩
+
+/-- As shipped: an UN-bridged Get Device ID (sequence number 2) is outstanding, the acknowledgement of
+an earlier, timed-out bridged request (sequence number 1, completion code 83h) arrives — and
+CompletionCodeError 83h is raised for the request in hand. -/
+theorem late_ack_asShipped_counterexample :
+    (rmcpRequest (Cfg.shipped { maxRetries := 1 }) ⟨1, [], []⟩ wReq [.frame wLateAck, .frame wReply2]).out =
+      .ccError 0x83 ∧
+    (rmcpRequest { maxRetries := 1 } ⟨1, [], []⟩ wReq [.frame wLateAck, .frame wReply2]).out =
+      .ok (replyData wReply2) := by decide
+
+theorem framesOf_leftover (l : List RxEvent) : framesOf (leftover l) = framesOf l := by
+  induction l with
+  | nil => rfl
+  | cons e l ih => cases e <;> simp [leftover, List.filter, RxEvent.isDatagram, framesOf] <;> simpa [leftover] using ih
+
+theorem framesOf_append (a b : List RxEvent) : framesOf (a ++ b) = framesOf a ++ framesOf b := by
+  induction a with
+  | nil => rfl
+  | cons e a ih => cases e <;> simp [framesOf, ih]
+
+theorem framesOf_pending_sub (cfg : Cfg) (st : IfState) (evs : List RxEvent) :
+    ∀ x ∈ framesOf (pending cfg st evs), x ∈ framesOf st.sock ++ framesOf evs := by
+  intro x hx
+  unfold pending at hx
+  split at hx
+  · exact List.mem_append_right _ hx
+  · rwa [framesOf_append] at hx
+
+/-- After any history of requests, every frame in `_q` was carried by a frame that was in `_q` / in the
+socket initially or by a datagram delivered during the history, and every datagram still in the socket IS
+one that was in the socket initially or was delivered during the history. -/
 theorem queue_provenance_rmcp (cfg : Cfg) (st : IfState) (hist : List (Req × List RxEvent))
     (hh : ∀ p ∈ hist, p.1.netfn % 2 = 0) :
-    ∀ x ∈ (runSession cfg st hist).queue, ∃ dg ∈ st.queue ++ sessionFrames hist, Carries dg x := by
+    (∀ x ∈ (runSession cfg st hist).queue,
+      ∃ dg ∈ st.queue ++ (framesOf st.sock ++ sessionFrames hist), Carries (!cfg.cmdOnly) dg x) ∧
+    (∀ x ∈ framesOf (runSession cfg st hist).sock, x ∈ framesOf st.sock ++ sessionFrames hist) := by
   induction hist generalizing st with
   | nil =>
-    intro x hx
-    exact ⟨x, by simpa [runSession, sessionFrames] using hx, .self x⟩
+    refine ⟨fun x hx => ⟨x, ?_, .self x⟩, fun x hx => ?_⟩
+    · simp only [runSession] at hx; simp [hx]
+    · simp only [runSession] at hx; simp [sessionFrames, hx]
   | cons p more ih =>
     obtain ⟨req, evs⟩ := p
-    intro x hx
     have hn : req.netfn % 2 = 0 := hh (req, evs) List.mem_cons_self
-    have hi : Inv (st.queue ++ framesOf evs) st.queue evs :=
-      ⟨fun x hx => Sound.of_mem (List.mem_append_left _ hx), fun x hx => List.mem_append_right _ hx⟩
-    have ho := (outer_ok cfg (mkHdr cfg.slaveAddr req (incSeq st.nextSeq)) hn _ (outerBudget cfg)
-      st.queue evs 0 hi).1
-    have := ih (rmcpRequest cfg st req evs).st (fun p hp => hh p (List.mem_cons_of_mem _ hp)) x
-      (by simpa [runSession] using hx)
-    have hs : Sound ((rmcpRequest cfg st req evs).st.queue ++ sessionFrames more) x := this
-    have : Sound (st.queue ++ sessionFrames ((req, evs) :: more)) x := by
-      refine sound_bind hs (fun y hy => ?_) (fun y hy => ?_)
-      · exact (ho.1 y hy).mono (fun z hz => by
-          simp only [sessionFrames, List.flatMap_cons, List.mem_append] at hz ⊢
-          rcases hz with hz | hz
-          · exact Or.inl hz
-          · exact Or.inr (Or.inl hz))
-      · simp only [sessionFrames, List.flatMap_cons, List.mem_append]
-        exact Or.inr (Or.inr hy)
-    exact this
+    have ho := (outer_ok cfg (bridgeOf req (incSeq st.nextSeq)) (mkHdr cfg.slaveAddr req (incSeq st.nextSeq)) hn _
+      (outerBudget cfg) st.queue (pending cfg st evs) 0 (inv_sources _ _ _)).1
+    have hrest := outer_rest_sub cfg (bridgeOf req (incSeq st.nextSeq)) (mkHdr cfg.slaveAddr req (incSeq st.nextSeq))
+      (outerBudget cfg) st.queue (pending cfg st evs) 0
+    obtain ⟨ih1, ih2⟩ := ih (rmcpRequest cfg st req evs).st (fun p hp => hh p (List.mem_cons_of_mem _ hp))
+    have hpend : ∀ y ∈ framesOf (pending cfg st evs), y ∈ framesOf st.sock ++ sessionFrames ((req, evs) :: more) := by
+      intro y hy
+      simp only [sessionFrames, List.flatMap_cons, List.mem_append]
+      rcases List.mem_append.mp (framesOf_pending_sub cfg st evs y hy) with hy | hy
+      · exact Or.inl hy
+      · exact Or.inr (Or.inl hy)
+    have hs' : ∀ y ∈ framesOf (rmcpRequest cfg st req evs).st.sock,
+        y ∈ framesOf st.sock ++ sessionFrames ((req, evs) :: more) := by
+      intro y hy
+      have : y ∈ framesOf (leftover (outer cfg (bridgeOf req (incSeq st.nextSeq))
+          (mkHdr cfg.slaveAddr req (incSeq st.nextSeq)) (outerBudget cfg) st.queue (pending cfg st evs) 0).rest) := hy
+      rw [framesOf_leftover] at this
+      exact hpend y (hrest y this)
+    have hmore : ∀ y ∈ sessionFrames more, y ∈ framesOf st.sock ++ sessionFrames ((req, evs) :: more) := by
+      intro y hy
+      simp only [sessionFrames, List.flatMap_cons, List.mem_append]
+      exact Or.inr (Or.inr hy)
+    have hq' : ∀ y ∈ (rmcpRequest cfg st req evs).st.queue,
+        Sound (!cfg.cmdOnly) (st.queue ++ (framesOf st.sock ++ sessionFrames ((req, evs) :: more))) y := by
+      intro y hy
+      refine (ho.1 y hy).mono (fun z hz => ?_)
+      rcases List.mem_append.mp hz with hz | hz
+      · exact List.mem_append_left _ hz
+      · exact List.mem_append_right _ (hpend z hz)
+    refine ⟨fun x hx => ?_, fun x hx => ?_⟩
+    · obtain ⟨dg, hdg, hc⟩ := ih1 x (by simpa [runSession] using hx)
+      rcases List.mem_append.mp hdg with hdg | hdg
+      · exact (hq' dg hdg).step hc
+      · rcases List.mem_append.mp hdg with hdg | hdg
+        · exact ⟨dg, List.mem_append_right _ (hs' dg hdg), hc⟩
+        · exact ⟨dg, List.mem_append_right _ (hmore dg hdg), hc⟩
+    · rcases List.mem_append.mp (ih2 x (by simpa [runSession] using hx)) with hdg | hdg
+      · exact hs' x hdg
+      · exact hmore x hdg
 
 /-- Attribution for a request issued after ANY history on the same interface object. -/
 theorem attribution_sound_session (cfg : Cfg) (st : IfState) (hist : List (Req × List RxEvent))
     (hh : ∀ p ∈ hist, p.1.netfn % 2 = 0) (req : Req) (evs : List RxEvent) (d : Frame)
     (hn : req.netfn % 2 = 0)
     (h : (rmcpRequest cfg (runSession cfg st hist) req evs).out = .ok d) :
-    ∃ dg ∈ st.queue ++ sessionFrames hist ++ framesOf evs, ∃ f, Carries dg f ∧
+    ∃ dg ∈ st.queue ++ (framesOf st.sock ++ sessionFrames hist) ++ framesOf evs, ∃ f,
+      Carries (!cfg.cmdOnly) dg f ∧
       isReplyTo (!cfg.ignoreRqSeq) (ridOf req (((runSession cfg st hist).nextSeq + 1) % 64)) f ∧
       d = replyData f := by
   obtain ⟨dg, hdg, f, hc, hr, hd⟩ := attribution_sound_rmcp cfg _ req evs d hn h
+  obtain ⟨p1, p2⟩ := queue_provenance_rmcp cfg st hist hh
   rcases List.mem_append.mp hdg with hq | he
-  · obtain ⟨dg0, h0, hc0⟩ := queue_provenance_rmcp cfg st hist hh dg hq
+  · obtain ⟨dg0, h0, hc0⟩ := p1 dg hq
     exact ⟨dg0, List.mem_append_left _ h0, f, hc0.trans hc, hr, hd⟩
-  · exact ⟨dg, List.mem_append_right _ he, f, hc, hr, hd⟩
+  · rcases List.mem_append.mp (framesOf_pending_sub cfg _ evs dg he) with hs | hv
+    · exact ⟨dg, List.mem_append_left _ (List.mem_append_right _ (p2 dg hs)), f, hc, hr, hd⟩
+    · exact ⟨dg, List.mem_append_right _ hv, f, hc, hr, hd⟩
 
 /-- ipmb-dev and Aardvark (any timeout, any number of attempts, with or without the length
 prefix): data is returned only if it is the data of an intact reply to this request
@@ -170,6 +363,32 @@ theorem attribution_sound_i2c (cfg : I2cCfg) (nextSeq : Nat) (req : Req) (evs : 
     ∃ f ∈ i2cFramesOf evs, isReplyTo true (ridOf req ((nextSeq + 1) % 64)) f ∧ d = replyData f :=
   i2cAttempts_ok cfg (mkHdr cfg.slaveAddr req (i2cIncSeq nextSeq)) hn (i2cFramesOf evs) cfg.attempts evs 0
     (fun _ hx => hx) d h
+
+/-- the sequence number an `is_ipmc_accessible` probe carries -/
+def probeSeq (inc : Bool) (nextSeq : Nat) : Nat := if inc then (nextSeq + 1) % 64 else nextSeq
+
+/-- `is_ipmc_accessible` (either variant) says "accessible" only on an intact reply to ITS Get Device ID —
+the sequence number it carries included — among the frames read during the probe. -/
+theorem attribution_sound_probe (cfg : I2cCfg) (inc : Bool) (nextSeq rsSa : Nat) (evs : List I2cEvent) (d : Frame)
+    (h : (i2cProbe cfg inc nextSeq rsSa evs).out = .ok d) :
+    ∃ f ∈ i2cFramesOf evs, isReplyTo true (ridOf (probeReq rsSa) (probeSeq inc nextSeq)) f := by
+  have hseq : (if inc then i2cIncSeq nextSeq else nextSeq) = probeSeq inc nextSeq := by
+    cases inc <;> rfl
+  have hr := recvRaw_ok cfg (mkHdr cfg.slaveAddr (probeReq rsSa) (if inc then i2cIncSeq nextSeq else nextSeq))
+    (by simp [mkHdr, probeReq]) (i2cFramesOf evs) 0 evs (fun _ hx => hx)
+  simp only [i2cProbe] at h
+  split at h
+  · rename_i f rest heq
+    rw [heq] at hr
+    refine ⟨f, hr.1, ?_⟩
+    have := hr.2.1
+    rw [hseq] at this
+    exact this
+  · cases h
+  · cases h
+  · rename_i e rest heq
+    rw [heq] at hr
+    exact absurd h (hr.1 d)
 
 /-! ## Sequence numbers -/
 
@@ -183,8 +402,8 @@ theorem seq_distinct_rmcp (cfg : Cfg) (st : IfState) (req : Req) (evs : List RxE
   refine ⟨rfl, ?_, ?_, ?_⟩
   · show (st.nextSeq + 1) % 64 ≠ st.nextSeq
     omega
-  · have := (outer_sends cfg (mkHdr cfg.slaveAddr req (incSeq st.nextSeq)) (outerBudget cfg) st.queue evs 0).2
-      (by rw [outerBudget_eq]; omega)
+  · have := (outer_sends cfg (bridgeOf req (incSeq st.nextSeq)) (mkHdr cfg.slaveAddr req (incSeq st.nextSeq))
+      (outerBudget cfg) st.queue (pending cfg st evs) 0).2 (by rw [outerBudget_eq]; omega)
     intro h0
     simp only [rmcpRequest] at h0
     have hl := congrArg List.length h0
@@ -210,108 +429,172 @@ theorem seq_distinct_i2c (cfg : I2cCfg) (nextSeq : Nat) (req : Req) (evs : List 
     simp only [mkHdr, hs]
     rw [Nat.or_zero, Nat.shiftLeft_eq]; omega
 
-/-! ## Progress: statements shared by the two variants of the RMCP loop -/
+/-- `is_ipmc_accessible` on ipmb-dev / Aardvark (repaired source, `inc = true`): the probe is a request
+like any other — it advances the sequence number, exactly one frame is written and it carries the new
+number, whatever happens afterwards. -/
+theorem seq_distinct_probe (cfg : I2cCfg) (nextSeq rsSa : Nat) (evs : List I2cEvent) :
+    (i2cProbe cfg true nextSeq rsSa evs).nextSeq = (nextSeq + 1) % 64 ∧
+    (i2cProbe cfg true nextSeq rsSa evs).nextSeq ≠ nextSeq ∧
+    (i2cProbe cfg true nextSeq rsSa evs).tx.length = 1 ∧
+    ∀ tx ∈ (i2cProbe cfg true nextSeq rsSa evs).tx, byte tx 4 / 4 = (nextSeq + 1) % 64 := by
+  have key : ∀ s : Nat, byte (encodeIpmbMsg (mkHdr cfg.slaveAddr (probeReq rsSa) s) []) 4 / 4 = s := by
+    intro s
+    rw [byte4_encodeIpmbMsg]
+    simp only [mkHdr]
+    rw [Nat.or_zero, Nat.shiftLeft_eq]; omega
+  have hs : i2cIncSeq nextSeq = (nextSeq + 1) % 64 := rfl
+  have hne : i2cIncSeq nextSeq ≠ nextSeq := by rw [hs]; omega
+  have htx : ∀ tx ∈ [encodeIpmbMsg (mkHdr cfg.slaveAddr (probeReq rsSa) (i2cIncSeq nextSeq)) []],
+      byte tx 4 / 4 = (nextSeq + 1) % 64 := by
+    intro tx h
+    simp only [List.mem_singleton] at h
+    rw [h, key, hs]
+  simp only [i2cProbe, if_true]
+  split <;> exact ⟨hs, hne, rfl, htx⟩
 
-/-- "A matching reply is found even when up to the configured number of unrelated frames
-arrive before it" — on an interface whose `_q` is empty.  Bare bridge acknowledgements do not
-count.  (`req.cmd ≠ Send Message`: the direct reply to a raw Send Message request is by
-design indistinguishable from bridging traffic.) -/
-def FindsMatchAfterNoise (requeue : Bool) : Prop :=
-  ∀ (cfg : Cfg) (st : IfState) (req : Req) (noise : List Frame) (reply : Frame) (rest : List RxEvent),
-    cfg.requeue = requeue → st.queue = [] → req.netfn % 2 = 0 → req.cmd ≠ cmdSendMessage →
-    (∀ f ∈ noise, Unrelated cfg.checkSeq (ridOf req ((st.nextSeq + 1) % 64)) f ∨ BareAck f) →
-    (noise.filter fun f => !decide (BareAck f)).length ≤ cfg.maxRetries →
-    isReplyTo cfg.checkSeq (ridOf req ((st.nextSeq + 1) % 64)) reply →
-    (rmcpRequest cfg st req (noise.map .frame ++ .frame reply :: rest)).out = .ok (replyData reply)
-
-/-- "Frames received during one request never prevent a later request from succeeding":
-after ANY history of requests with ANY events on a fresh interface, a request whose reply
-arrives (behind at most the configured number of unrelated frames) returns that reply. -/
-def NoPoisoning (requeue : Bool) : Prop :=
-  ∀ (cfg : Cfg) (st : IfState) (hist : List (Req × List RxEvent)) (req : Req) (noise : List Frame)
-    (reply : Frame) (rest : List RxEvent),
-    cfg.requeue = requeue → st.queue = [] → req.netfn % 2 = 0 → req.cmd ≠ cmdSendMessage →
-    (∀ f ∈ noise, Unrelated cfg.checkSeq (ridOf req (((runSession cfg st hist).nextSeq + 1) % 64)) f ∨ BareAck f) →
-    (noise.filter fun f => !decide (BareAck f)).length ≤ cfg.maxRetries →
-    isReplyTo cfg.checkSeq (ridOf req (((runSession cfg st hist).nextSeq + 1) % 64)) reply →
-    (rmcpRequest cfg (runSession cfg st hist) req (noise.map .frame ++ .frame reply :: rest)).out =
-      .ok (replyData reply)
-
-/-! ### the loop as shipped violates both -/
-
-def wReq : Req := { rsSa := 0x20, netfn := 6, lun := 0, cmd := 1 }
-/-- late reply to the previous request (sequence number 0) -/
-def wStale : Frame := [0x81, 0x1c, 0x63, 0x20, 0x00, 0x01, 0x00, 0xaa, 0xbb, 0x7a]
-/-- the reply to request 1 (sequence number 1) -/
-def wReply1 : Frame := [0x81, 0x1c, 0x63, 0x20, 0x04, 0x01, 0x00, 0xaa, 0xbb, 0x76]
-/-- the reply to request 2 (sequence number 2) -/
-def wReply2 : Frame := [0x81, 0x1c, 0x63, 0x20, 0x08, 0x01, 0x00, 0xcc, 0x0b]
-
-/-- As shipped (`max_retries = 1`, fresh interface): one stale frame, then the reply —
-RetryError although one unrelated frame is within the budget.  The stale frame is put back
-into `_q`, `_q` is read before the socket, so the reply is never read. -/
-theorem finds_match_after_noise_asShipped_counterexample : ¬ FindsMatchAfterNoise true := by
+/-- As shipped (`inc = false`) it does not: after a request with sequence number 1 the probe is written
+with sequence number 1 again — and the late reply to that request (here: the only thing that arrives)
+is taken for the probe's answer ("accessible"). -/
+theorem probe_reuses_seq_asShipped_counterexample :
+    ¬ ∀ (cfg : I2cCfg) (nextSeq rsSa : Nat) (evs : List I2cEvent),
+      ∀ tx ∈ (i2cProbe cfg false nextSeq rsSa evs).tx, byte tx 4 / 4 ≠ nextSeq := by
   intro H
-  have := H { maxRetries := 1 } ⟨0, []⟩ wReq [wStale] wReply1 [] rfl rfl (by decide) (by decide)
-    (by decide) (by decide) (by decide)
+  have := H I2cCfg.ipmbdev 1 0x20 [] _ List.mem_cons_self
   revert this
   decide
 
-/-- As shipped: the stale frame of request 1 is still in `_q` during request 2, whose reply
-(the only thing that arrives) is never read — RetryError, and so on for every later request. -/
-theorem no_poisoning_asShipped_counterexample : ¬ NoPoisoning true := by
+/-! ## Progress: "a matching reply is found …", "frames received during one request never prevent …" -/
+
+/-- "A matching reply is found even when up to the configured number of unrelated frames arrive before
+it" — for every source variant selected by `P`, every interface whose `_q` is empty WHATEVER is left in
+its socket, every request (the one combination left out: a BRIDGED request whose own reply is a response
+to Send Message with the transaction's sequence number — a Send Message to LUN 0 of the target sent
+through a bridge — which nothing in the frame tells apart from the bridge's response).  Bare
+acknowledgements of this transaction do not count. -/
+def FindsMatchAfterNoise (P : Cfg → Prop) : Prop :=
+  ∀ (cfg : Cfg) (st : IfState) (req : Req) (noise : List Frame) (reply : Frame) (rest : List RxEvent),
+    P cfg → st.queue = [] → req.netfn % 2 = 0 →
+    let seq := (st.nextSeq + 1) % 64
+    (∀ f ∈ noise, Unrelated cfg.checkSeq (ridOf req seq) (bridgedOf req seq) f ∨
+      BareAck cfg.checkSeq (bridgedOf req seq) f) →
+    (noise.filter fun f => !decide (BareAck cfg.checkSeq (bridgedOf req seq) f)).length ≤ cfg.maxRetries →
+    isReplyTo cfg.checkSeq (ridOf req seq) reply →
+    ¬ OwnSendMsgRsp cfg.checkSeq (bridgedOf req seq) reply →
+    (rmcpRequest cfg st req (noise.map .frame ++ .frame reply :: rest)).out = .ok (replyData reply)
+
+/-- "Frames received during one request never prevent a later request from succeeding":
+after ANY history of requests with ANY events — whatever they left in the socket — a request whose
+reply arrives (behind at most the configured number of unrelated frames) returns that reply. -/
+def NoPoisoning (P : Cfg → Prop) : Prop :=
+  ∀ (cfg : Cfg) (st : IfState) (hist : List (Req × List RxEvent)) (req : Req) (noise : List Frame)
+    (reply : Frame) (rest : List RxEvent),
+    P cfg → st.queue = [] → req.netfn % 2 = 0 →
+    let seq := ((runSession cfg st hist).nextSeq + 1) % 64
+    (∀ f ∈ noise, Unrelated cfg.checkSeq (ridOf req seq) (bridgedOf req seq) f ∨
+      BareAck cfg.checkSeq (bridgedOf req seq) f) →
+    (noise.filter fun f => !decide (BareAck cfg.checkSeq (bridgedOf req seq) f)).length ≤ cfg.maxRetries →
+    isReplyTo cfg.checkSeq (ridOf req seq) reply →
+    ¬ OwnSendMsgRsp cfg.checkSeq (bridgedOf req seq) reply →
+    (rmcpRequest cfg (runSession cfg st hist) req (noise.map .frame ++ .frame reply :: rest)).out =
+      .ok (replyData reply)
+
+/-! ### the loop before fixes/C04-1.diff violated both -/
+
+/-- Before C04-1 (`max_retries = 1`, fresh interface): one stale frame, then the reply —
+RetryError although one unrelated frame is within the budget.  The stale frame is put back
+into `_q`, `_q` is read before the socket, so the reply is never read. -/
+theorem finds_match_after_noise_requeue_counterexample : ¬ FindsMatchAfterNoise (fun c => c.requeue = true) := by
   intro H
-  have := H { maxRetries := 1 } ⟨0, []⟩ [(wReq, [.frame wStale])] wReq [] wReply2 [] rfl rfl (by decide)
+  have := H { maxRetries := 1, requeue := true } ⟨0, [], []⟩ wReq [wStale] wReply1 [] rfl rfl (by decide)
     (by decide) (by decide) (by decide) (by decide)
   revert this
   decide
 
-/-! ### the intended loop satisfies both -/
+/-- Before C04-1: the stale frame of request 1 is still in `_q` during request 2, whose reply
+(the only thing that arrives) is never read — RetryError, and so on for every later request. -/
+theorem no_poisoning_requeue_counterexample : ¬ NoPoisoning (fun c => c.requeue = true) := by
+  intro H
+  have := H { maxRetries := 1, requeue := true } ⟨0, [], []⟩ [(wReq, [.frame wStale])] wReq [] wReply2 [] rfl rfl
+    (by decide) (by decide) (by decide) (by decide) (by decide)
+  revert this
+  decide
 
-/-- Intended loop, with time-outs: up to `max_retries` rounds that end in a socket time-out
+/-! ### the source as shipped (no drain) violates the second -/
+
+/-- As shipped, default `max_retries = 0`: the reply to request 1 is delivered twice.  Request 1
+succeeds; request 2 reads the duplicate, has no budget left and fails although its own reply arrives
+right behind it — and leaves that reply in the socket for request 3, and so on. -/
+theorem no_poisoning_asShipped_counterexample : ¬ NoPoisoning (fun c => c.drain = false ∧ c.requeue = false) := by
+  intro H
+  have := H { maxRetries := 0, drain := false } ⟨0, [], []⟩ [(wReq, [.frame wReply1, .frame wReply1])] wReq []
+    wReply2 [] ⟨rfl, rfl⟩ rfl (by decide) (by decide) (by decide) (by decide) (by decide)
+  revert this
+  decide
+
+/-! ### the repaired source satisfies both -/
+
+/-- Repaired source: what earlier requests left in the socket has no influence on a request at all. -/
+theorem socket_leftover_is_ignored (cfg : Cfg) (hd : cfg.drain = true) (st : IfState) (s : List RxEvent)
+    (req : Req) (evs : List RxEvent) :
+    rmcpRequest cfg { st with sock := s } req evs = rmcpRequest cfg { st with sock := [] } req evs := by
+  simp [rmcpRequest, pending, hd]
+
+/-- Repaired loop, with time-outs: up to `max_retries` rounds that end in a socket time-out
 (each preceded by at most `max_retries` unrelated frames; bare acknowledgements free), then a
 round with at most `max_retries` unrelated frames and the reply — the reply's data is
 returned, `_q` is empty afterwards, exactly the events up to the reply were consumed and one
-datagram per round was sent. -/
-theorem finds_match_after_timeouts (cfg : Cfg) (hq : cfg.requeue = false) (st : IfState) (hst : st.queue = [])
-    (req : Req) (hn : req.netfn % 2 = 0) (hc : req.cmd ≠ cmdSendMessage)
+datagram per round was sent.  For ANY content of the socket at the start. -/
+theorem finds_match_after_timeouts (cfg : Cfg) (hc : cfg.Repaired) (st : IfState) (hst : st.queue = [])
+    (req : Req) (hn : req.netfn % 2 = 0)
     (rounds : List (List Frame)) (noise : List Frame) (reply : Frame) (rest : List RxEvent)
     (hr : rounds.length ≤ cfg.maxRetries)
-    (hrounds : ∀ r ∈ rounds, (∀ f ∈ r, Unrelated cfg.checkSeq (ridOf req ((st.nextSeq + 1) % 64)) f ∨ BareAck f) ∧
-      (r.filter fun f => !decide (BareAck f)).length ≤ cfg.maxRetries)
-    (hnoise : ∀ f ∈ noise, Unrelated cfg.checkSeq (ridOf req ((st.nextSeq + 1) % 64)) f ∨ BareAck f)
-    (hcount : (noise.filter fun f => !decide (BareAck f)).length ≤ cfg.maxRetries)
-    (hreply : isReplyTo cfg.checkSeq (ridOf req ((st.nextSeq + 1) % 64)) reply) :
+    (hrounds : ∀ r ∈ rounds,
+      (∀ f ∈ r, Unrelated cfg.checkSeq (ridOf req ((st.nextSeq + 1) % 64)) (bridgedOf req ((st.nextSeq + 1) % 64)) f ∨
+        BareAck cfg.checkSeq (bridgedOf req ((st.nextSeq + 1) % 64)) f) ∧
+      (r.filter fun f => !decide (BareAck cfg.checkSeq (bridgedOf req ((st.nextSeq + 1) % 64)) f)).length ≤ cfg.maxRetries)
+    (hnoise : ∀ f ∈ noise,
+      Unrelated cfg.checkSeq (ridOf req ((st.nextSeq + 1) % 64)) (bridgedOf req ((st.nextSeq + 1) % 64)) f ∨
+      BareAck cfg.checkSeq (bridgedOf req ((st.nextSeq + 1) % 64)) f)
+    (hcount : (noise.filter fun f => !decide (BareAck cfg.checkSeq (bridgedOf req ((st.nextSeq + 1) % 64)) f)).length
+      ≤ cfg.maxRetries)
+    (hreply : isReplyTo cfg.checkSeq (ridOf req ((st.nextSeq + 1) % 64)) reply)
+    (hnown : ¬ OwnSendMsgRsp cfg.checkSeq (bridgedOf req ((st.nextSeq + 1) % 64)) reply) :
     let r := rmcpRequest cfg st req
       (timedOutRounds (rounds.map (·.map .frame)) ++ (noise.map .frame ++ .frame reply :: rest))
-    r.out = .ok (replyData reply) ∧ r.st.queue = [] ∧ r.rest = rest ∧ r.tx.length = rounds.length + 1 := by
+    r.out = .ok (replyData reply) ∧ r.st.queue = [] ∧ r.rest = rest ∧ r.st.sock = leftover rest ∧
+      r.tx.length = rounds.length + 1 := by
+  obtain ⟨hq, hco, hd⟩ := hc
   let h := mkHdr cfg.slaveAddr req (incSeq st.nextSeq)
+  let br := bridgedOf req ((st.nextSeq + 1) % 64)
   have hrid : h.rid = ridOf req ((st.nextSeq + 1) % 64) := rfl
-  have hhit : IsHit cfg h (.frame reply) reply :=
-    reply_isHit cfg h hn hc reply (by rw [hrid]; exact hreply)
-  have hlast := noise_benign cfg h hn noise (by rw [hrid]; exact hnoise)
-  have hsegs : ∀ s ∈ rounds.map (·.map RxEvent.frame), Benign cfg h s ∧ noiseCount cfg h s ≤ cfg.maxRetries := by
+  have hbr : bridgeOf req (incSeq st.nextSeq) = bridgeOfSeq br := bridgeOf_eq req _
+  have hhit : IsHit cfg (bridgeOfSeq br) h (.frame reply) reply :=
+    reply_isHit cfg hco br h hn reply (by rw [hrid]; exact hreply) hnown
+  have hlast := noise_benign cfg hco br h hn noise (by rw [hrid]; exact hnoise)
+  have hsegs : ∀ s ∈ rounds.map (·.map RxEvent.frame),
+      Benign cfg (bridgeOfSeq br) h s ∧ noiseCount cfg (bridgeOfSeq br) h s ≤ cfg.maxRetries := by
     intro s hs
     obtain ⟨r, hr1, hr2⟩ := List.mem_map.mp hs
     subst hr2
-    have := noise_benign cfg h hn r (by rw [hrid]; exact (hrounds r hr1).1)
+    have := noise_benign cfg hco br h hn r (by rw [hrid]; exact (hrounds r hr1).1)
     exact ⟨this.1, by rw [this.2]; exact (hrounds r hr1).2⟩
-  have key := outer_rounds cfg hq h (rounds.map (·.map .frame)) (outerBudget cfg) (noise.map .frame)
-    (.frame reply) reply rest 0 (by rw [outerBudget_eq]; simp; omega) hsegs hlast.1
+  have key := outer_rounds cfg hq (bridgeOfSeq br) h (rounds.map (·.map .frame)) (outerBudget cfg)
+    (noise.map .frame) (.frame reply) reply rest 0 (by rw [outerBudget_eq]; simp; omega) hsegs hlast.1
     (by rw [hlast.2]; exact hcount) hhit
-  simp only [rmcpRequest, hst]
-  rw [show outer cfg (mkHdr cfg.slaveAddr req (incSeq st.nextSeq)) = outer cfg h from rfl, key]
-  refine ⟨?_, rfl, rfl, by simp⟩
+  simp only [rmcpRequest, hst, pending, hd, if_true, hbr]
+  rw [show outer cfg (bridgeOfSeq br) (mkHdr cfg.slaveAddr req (incSeq st.nextSeq)) =
+    outer cfg (bridgeOfSeq br) h from rfl, key]
+  refine ⟨?_, rfl, rfl, rfl, by simp⟩
   show Outcome.ok (pySlice 6 1 reply) = _
   rw [pySlice_eq_replyData]
 
-/-- Intended loop: a matching reply is found behind up to `max_retries` unrelated frames. -/
-theorem finds_match_after_noise : FindsMatchAfterNoise false := by
-  intro cfg st req noise reply rest hq hst hn hc hnoise hcount hreply
-  exact (finds_match_after_timeouts cfg hq st hst req hn hc [] noise reply rest (by simp)
-    (fun r hr => by cases hr) hnoise hcount hreply).1
+/-- Repaired loop: a matching reply is found behind up to `max_retries` unrelated frames. -/
+theorem finds_match_after_noise : FindsMatchAfterNoise Cfg.Repaired := by
+  intro cfg st req noise reply rest hc hst hn seq hnoise hcount hreply hnown
+  exact (finds_match_after_timeouts cfg hc st hst req hn [] noise reply rest (by simp)
+    (fun r hr => by cases hr) hnoise hcount hreply hnown).1
 
-/-- Intended loop: `_q` is empty after every request, whatever arrived, for any history. -/
+/-- Since C04-1: `_q` is empty after every request, whatever arrived, for any history. -/
 theorem queue_stays_empty (cfg : Cfg) (hq : cfg.requeue = false) (st : IfState) (hst : st.queue = [])
     (hist : List (Req × List RxEvent)) : (runSession cfg st hist).queue = [] := by
   induction hist generalizing st with
@@ -321,14 +604,14 @@ theorem queue_stays_empty (cfg : Cfg) (hq : cfg.requeue = false) (st : IfState) 
     simp only [runSession]
     apply ih
     simp only [rmcpRequest, hst]
-    exact outer_queue_empty cfg hq _ _ evs 0
+    exact outer_queue_empty cfg hq _ _ _ _ 0
 
-/-- Intended loop: frames received during earlier requests never prevent a later request
-from finding its reply. -/
-theorem no_poisoning : NoPoisoning false := by
-  intro cfg st hist req noise reply rest hq hst hn hc hnoise hcount hreply
-  exact finds_match_after_noise cfg (runSession cfg st hist) req noise reply rest hq
-    (queue_stays_empty cfg hq st hst hist) hn hc hnoise hcount hreply
+/-- Repaired source: frames received during earlier requests — consumed or left in the socket —
+never prevent a later request from finding its reply, for every `max_retries` including 0. -/
+theorem no_poisoning : NoPoisoning Cfg.Repaired := by
+  intro cfg st hist req noise reply rest hc hst hn seq hnoise hcount hreply hnown
+  exact finds_match_after_noise cfg (runSession cfg st hist) req noise reply rest hc
+    (queue_stays_empty cfg hc.1 st hst hist) hn hnoise hcount hreply hnown
 
 /-! ## ipmb-dev / Aardvark: progress -/
 
@@ -355,24 +638,51 @@ theorem finds_match_after_noise_i2c (cfg : I2cCfg) (nextSeq : Nat) (req : Req) (
 
 /-! ## Non-vacuity: the hypotheses are satisfiable by concrete, non-trivial objects -/
 
-/-- attribution: the shipped loop does return data on a concrete run (bridged reply behind
-a bare acknowledgement), and it is the reply's data -/
-example : (rmcpRequest { maxRetries := 0 } ⟨0, []⟩ wReq
-    [.frame [0x81, 0x1c, 0x63, 0x20, 0x00, 0x34, 0x00, 0xac], .frame wReply1]).out = .ok [0x00, 0xaa, 0xbb] := by
+def wBridged : Req := { wReq with routing := [⟨0x81, 0x20, 0⟩, ⟨0x20, 0x82, 0⟩] }
+/-- bare acknowledgement of the Send Message of transaction 1 -/
+def wAck : Frame := [0x81, 0x1c, 0x63, 0x20, 0x04, 0x34, 0x00, 0xa8]
+/-- `wReply1` inside an intact Send Message response of transaction 1 -/
+def wWrapped : Frame := [0x81, 0x1c, 0x63, 0x20, 0x04, 0x34, 0x00, 0x81, 0x1c, 0x63, 0x20, 0x04, 0x01, 0x00,
+  0xaa, 0xbb, 0x76, 0xa8]
+
+/-- attribution: the repaired loop does return data on a concrete run (bridged request: bare
+acknowledgement, then the wrapped reply), and it is the reply's data -/
+example : (rmcpRequest { maxRetries := 0 } ⟨0, [], []⟩ wBridged [.frame wAck, .frame wWrapped]).out =
+    .ok [0x00, 0xaa, 0xbb] := by decide
+
+/-- the witness frames are what the hypotheses of the progress clauses ask for: a stale reply, a late
+failing acknowledgement and a damaged wrapper are all `Unrelated`; the acknowledgement of this
+transaction is a `BareAck` only for the bridged request -/
+example : Unrelated true (ridOf wReq 1) none wStale ∧ Unrelated true (ridOf wReq 2) none wLateAck ∧
+    Unrelated true (ridOf wBridged 2) (some 2) wLateAck ∧ Unrelated true (ridOf wBridged 1) (some 1) wDamaged ∧
+    isReplyTo true (ridOf wReq 1) wReply1 ∧ BareAck true (some 1) wAck ∧ ¬ BareAck true none wAck ∧
+    wReq.netfn % 2 = 0 := by decide
+
+/-- HPM.1 Get Upgrade Status (2Ch/34h) NOT bridged: its reply is found (as shipped: IndexError) -/
+example : (rmcpRequest { maxRetries := 0 } ⟨0, [], []⟩ { wReq with netfn := 0x2c, cmd := 0x34 }
+      [.frame [0x81, 0xb4, 0xcb, 0x20, 0x04, 0x34, 0x00, 0x00, 0x33, 0x00, 0x75]]).out = .ok [0x00, 0x00, 0x33, 0x00] ∧
+    (rmcpRequest (Cfg.shipped { maxRetries := 0 }) ⟨0, [], []⟩ { wReq with netfn := 0x2c, cmd := 0x34 }
+      [.frame [0x81, 0xb4, 0xcb, 0x20, 0x04, 0x34, 0x00, 0x00, 0x33, 0x00, 0x75]]).out = .pyError "IndexError" := by
   decide
 
-/-- the witness frames are what the hypotheses of the progress clauses ask for -/
-example : Unrelated true (ridOf wReq 1) wStale ∧ isReplyTo true (ridOf wReq 1) wReply1 ∧
-    BareAck [0x81, 0x1c, 0x63, 0x20, 0x00, 0x34, 0x00, 0xac] ∧ wReq.netfn % 2 = 0 ∧ wReq.cmd ≠ cmdSendMessage := by
-  decide
-
-/-- the intended loop on the witness of the counter-example: the reply is found -/
-example : (rmcpRequest { maxRetries := 1, requeue := false } ⟨0, []⟩ wReq [.frame wStale, .frame wReply1]).out
+/-- the repaired loop on the witness of the C04-1 counter-example: the reply is found -/
+example : (rmcpRequest { maxRetries := 1 } ⟨0, [], []⟩ wReq [.frame wStale, .frame wReply1]).out
     = .ok (replyData wReply1) := by decide
+
+/-- the repaired source on the witness of `no_poisoning_asShipped_counterexample`: request 2 is answered,
+the duplicate is gone -/
+example : (rmcpRequest { maxRetries := 0 }
+    (runSession { maxRetries := 0 } ⟨0, [], []⟩ [(wReq, [.frame wReply1, .frame wReply1])]) wReq [.frame wReply2]).out
+    = .ok (replyData wReply2) := by decide
 
 /-- ipmb-dev: hypotheses of `finds_match_after_noise_i2c` on a concrete script (one failed
 attempt, one stale frame, then the reply) -/
 example : (i2cRequest I2cCfg.ipmbdev 0 wReq
     [.frame 3 wStale, .idle, .frame 5 wStale, .frame 2 wReply1]).out = .ok (replyData wReply1) := by decide
+
+/-- the probe after a request with sequence number 1: repaired it carries 2 and the late reply to that
+request is not its answer; as shipped it carries 1 and the late reply makes it say "accessible" -/
+example : (i2cProbe I2cCfg.ipmbdev true 1 0x20 [.frame 2 wReply1]).out = .timeoutError ∧
+    (i2cProbe I2cCfg.ipmbdev false 1 0x20 [.frame 2 wReply1]).out = .ok [] := by decide
 
 end PyIpmi.Props.C04
